@@ -22,9 +22,19 @@ mod proposals;
 mod rollups;
 #[path = "/verif/harness/seq/app/sim.rs"]
 mod sim;
+#[path = "/verif/harness/common/mutate.rs"]
+mod mutate;
+#[path = "/verif/harness/seq/app/wirefuzz.rs"]
+mod wirefuzz;
 
 /// entry: VERIF_PROFILE selects generator weights; VERIF_HISTORIES / VERIF_BLOCKS bound the run.
 #[tokio::test(flavor = "multi_thread", worker_threads = 2)]
 async fn chain() {
     sim::run_from_env().await;
+}
+
+/// entry (C17): mutated and re-signed transaction bytes at the CheckTx boundary of a live chain state.
+#[tokio::test(flavor = "multi_thread", worker_threads = 2)]
+async fn checktx_fuzz() {
+    wirefuzz::run().await;
 }
